@@ -14,11 +14,34 @@ pub struct Outcome {
 
 fn finish(mut ex: Exec, v: Option<Violation>) -> Outcome {
     let violation = match v {
-        Some(v) => {
-            // still drop the world quietly so that the next run starts clean
-            let _ = std::panic::catch_unwind(std::panic::AssertUnwindSafe(|| {
+        Some(mut v) => {
+            // Still drop the world. The model may have diverged, so only ledger facts count
+            // here: a value that is still alive after the world is gone (nothing is held by the
+            // harness) was leaked, and a destructor that ran twice ran twice - both are C08's
+            // subject whatever property the first discrepancy belonged to.
+            let faults = ex.cfg.faults;
+            let settled = std::panic::catch_unwind(std::panic::AssertUnwindSafe(|| {
                 let _ = ex.finish();
+                let _ = crate::ledger::take_anomalies();
             }));
+            if settled.is_ok() && !faults {
+                let live = crate::ledger::live_ids();
+                let (c, d, r) = crate::ledger::zst_counts();
+                if !live.is_empty() || c != d + r {
+                    if !v.props.iter().any(|p| p == "C08") {
+                        v.props.push("C08".to_string());
+                    }
+                    v.detail = format!(
+                        "{} | after dropping the world {} value(s) were never destroyed nor returned (e.g. {:?}); zero-sized: {} created, {} destroyed, {} returned",
+                        v.detail,
+                        live.len(),
+                        live.iter().take(4).collect::<Vec<_>>(),
+                        c,
+                        d,
+                        r
+                    );
+                }
+            }
             Some(v)
         }
         None => match std::panic::catch_unwind(std::panic::AssertUnwindSafe(|| ex.finish())) {
